@@ -133,6 +133,8 @@ def run(ctx: core.Ctx):
                     ctx.fail(variant, dict(y=y, mask=[int(b) for b in m], params=prm, placeholder=nm), got.tolist(), base.tolist(),
                              note="unit weight on valid cells: cells marked NaN / inf are missing exactly like cells equal to nodata")
 
+    from .. import strided
+    strided.probe(ctx, "a non-contiguous view of an argument gives exactly the result of its contiguous copy (the kernel reads the cells it was given)", only=['ws2dgu', 'ws2dpgu'])
     # accessor: whits with s / sg / p and the three dimension orders
     from hdc.algo.ops import ws2dgu, ws2dpgu
     for k in range(ctx.budget(8, 60)):
